@@ -42,7 +42,7 @@ def opDec (args : List String) (impl : String) : Verdict :=
             | _, _ => some "C05,C06: unparsable impl output"
           | _ => some "C05,C06: unparsable impl output"
       match l1v with
-      | some why => l1 label why
+      | some why => l1 label (why ++ (if impl = modelStr then "" else " ||L2: model=" ++ modelStr.take 80))
       | none => if impl = modelStr then ok label else l2 label ("model=" ++ modelStr)
   | _ => bad "dec: arity"
 
